@@ -72,7 +72,7 @@ def run(cx):
     if c8:
         t = cx.true_returns(c8)
         cx.guard('C08.G1', t, {
-            'owner-equals-wildcard-name': rf'^eq:Name\(\^{WILD}@Ok\.0,arg2\.0\)$|^eq:Name\(arg2\.0,\^{WILD}@Ok\.0\)$',
+            'owner-equals-wildcard-name': rf'^eq:Name\({WILD}@Ok\.0,arg2\.0\)$|^eq:Name\(arg2\.0,{WILD}@Ok\.0\)$',
             'qtype-bit-clear': r'^!RecordTypeSet::contains\(NSEC::type_set\(arg2\.1\),\^arg1\.query_type\)$',
             'cname-bit-clear': r'^!RecordTypeSet::contains\(NSEC::type_set\(arg2\.1\),RecordType::CNAME\)$',
             'no-closer-matches': r'^dnssec::no_closer_matches\(\^arg1\.name,\^arg2,\^arg5,'}, fn=c8)
